@@ -1,17 +1,23 @@
 #!/usr/bin/env python3
 """Validate seeded breaking changes and run the checks against them.
 
-usage: tools_mut.py <pid> <mN> [--skip-suite] [--checks C01,C17] [--tier quick]
-Input:  /tmp/mut/<pid>/out/<mN>/{patch.diff,demo.rs,meta.json}
-Phase A (scratch worktree /tmp/mutv, own target dir): demo passes without the patch, fails with
+usage: tools/seedcheck.py <pid> <mN> [--skip-suite] [--skip-demo] [--checks C01,C17] [--tier quick] [--slot K]
+Input:  /tmp/sw/<PID>/out/<mN>/{patch.diff,demo.rs,meta.json}  (or /verif/seeded/<PID>_<mN>/)
+Phase A (scratch worktree /tmp/mutv<K>, own target dir): demo passes without the patch, fails with
          it; the repo's own suite still passes with it.
-Phase B (/repo itself): git apply, ./check <pid> --tier quick, git checkout -- .
-Output: /tmp/mut/results/<pid>_<mN>.json
+Phase B (same scratch worktree, patch applied; scratch copy of the harness pointing at it):
+         ./check <pid> --tier quick with VH_HARNESS/VH_TARGET, so /repo itself is never touched.
+Output: /tmp/mut/results/<PID>_<mN>.json
 """
 import sys, os, subprocess, json, shutil, time, re
 
 ENV = dict(os.environ, RUSTC_WRAPPER="", CARGO_NET_OFFLINE="true", CARGO_TERM_COLOR="never")
-WT = "/tmp/mutv"
+SLOT = "0"
+for _i, _a in enumerate(sys.argv):
+    if _a == "--slot":
+        SLOT = sys.argv[_i + 1]
+WT = "/tmp/mutv" + SLOT
+ENV["CARGO_TARGET_DIR"] = WT + "_rt"
 
 
 def sh(cmd, cwd=None, timeout=3600):
@@ -29,7 +35,8 @@ def main():
             checks = sys.argv[i + 1].split(",")
         if a == "--tier":
             tier = sys.argv[i + 1]
-    src = "/tmp/mut/%s/out/%s" % (pid, mn)
+    skip_demo = "--skip-demo" in sys.argv
+    src = "/tmp/sw/%s/out/%s" % (pid.upper(), mn)
     if not os.path.isdir(src):
         src = "/verif/seeded/%s_%s" % (pid.upper(), mn)
     patch = os.path.join(src, "patch.diff")
@@ -42,28 +49,29 @@ def main():
     sh("git checkout -q --detach $(git -C /repo rev-parse HEAD) && git checkout -- . && git clean -fdq tests/ examples/", cwd=WT)
     tname = "demo_%s_%s" % (pid, mn)
     shutil.copy(demo, os.path.join(WT, "tests", tname + ".rs"))
-    rc0, out0 = sh("cargo test --offline --test %s 2>&1 | tail -15" % tname, cwd=WT)
+    rc0, out0 = sh("cargo test --offline -j 8 --test %s 2>&1 | tail -15" % tname, cwd=WT)
     res["demo_without_patch_passes"] = ("test result: ok" in out0)
     rc, out = sh(["git", "apply", patch], cwd=WT)
     res["patch_applies"] = rc == 0
-    rc1, out1 = sh("cargo test --offline --test %s 2>&1 | tail -25" % tname, cwd=WT)
+    rc1, out1 = sh("cargo test --offline -j 8 --test %s 2>&1 | tail -25" % tname, cwd=WT)
     res["demo_with_patch_fails"] = ("test result: FAILED" in out1) or ("error: test failed" in out1)
     res["demo_with_patch_tail"] = out1[-700:]
     os.remove(os.path.join(WT, "tests", tname + ".rs"))
     if not skip_suite:
-        rc2, out2 = sh("cargo nextest run --workspace --no-fail-fast --test-threads 10 --offline 2>&1 | grep -E 'Summary|FAIL' | head -5", cwd=WT)
+        rc2, out2 = sh("cargo nextest run --workspace --no-fail-fast --test-threads 6 --build-jobs 8 --offline 2>&1 | grep -E 'Summary|FAIL' | head -5", cwd=WT)
         res["suite"] = out2.strip()
         res["suite_passes_with_patch"] = ("691 passed" in out2) and ("FAIL" not in out2)
     sh("git checkout -- . && git clean -fdq tests/ examples/", cwd=WT)
     # ---------------- phase B: the checks, against the scratch worktree with the patch applied
     sh(["git", "apply", patch], cwd=WT)
-    HS, TG = "/tmp/mutv_h", "/tmp/mutv_target"
+    HS, TG = WT + "_h", WT + "_target"
     sh("rsync -a --delete --exclude target /verif/harness/ %s/ && sed -i 's#path = \"/repo\"#path = \"%s\"#' %s/Cargo.toml && sed -i 's#target-dir = \"/verif/target\"#target-dir = \"%s\"#' %s/.cargo/config.toml" % (HS, WT, HS, TG, HS))
     res["checks"] = {}
     try:
         for c in checks:
             t0 = time.time()
             env2 = dict(ENV, VH_HARNESS=HS, VH_TARGET=TG)
+            env2.pop("CARGO_TARGET_DIR", None)
             p = subprocess.run(["./check", c, "--tier", tier], cwd="/verif", env=env2, stdout=subprocess.PIPE, stderr=subprocess.STDOUT, text=True, timeout=5400)
             rc, out = p.returncode, p.stdout
             sigs = re.findall(r"signature: (.*)", out)
@@ -71,7 +79,7 @@ def main():
                                     tail=[l for l in out.splitlines() if not l.startswith("KNOWN-FINDING")][-6:])
     finally:
         sh("git checkout -- . && git clean -fdq tests/ examples/", cwd=WT)
-    json.dump(res, open("/tmp/mut/results/%s_%s.json" % (pid, mn), "w"), indent=1)
+    json.dump(res, open("/tmp/mut/results/%s_%s.json" % (pid.upper(), mn), "w"), indent=1)
     print(json.dumps({k: v for k, v in res.items() if k not in ("demo_with_patch_tail",)}, indent=1)[:1800])
 
 
